@@ -60,7 +60,13 @@ fn kind_name(e: &varlink::Error) -> String {
 
 pub fn run(vals: &[u8]) -> Outcome {
     let g = |i: usize| *vals.get(i).unwrap_or(&0);
-    let out = if g(0) == 0 { send(vals) } else { recv(vals) };
+    let out = if g(0) == 0 {
+        send(vals)
+    } else if g(0) == 2 {
+        error_kind(vals)
+    } else {
+        recv(vals)
+    };
     match out {
         Ok(o) => o,
         Err(e) => Outcome { reproduced: false, role: String::new(), scenario: String::new(), detail: format!("not constructible natively: {}", e) },
@@ -227,4 +233,54 @@ fn recv(vals: &[u8]) -> Result<Outcome, String> {
         scenario,
         detail: bad.unwrap_or_default(),
     })
+}
+
+/// vals = [2, name (0..3 the standard errors, 4 another name), error present, parameters present, parameters parse, field present]
+fn error_kind(vals: &[u8]) -> Result<Outcome, String> {
+    let g = |i: usize| *vals.get(i).unwrap_or(&0);
+    let names = [
+        ("org.varlink.service.InterfaceNotFound", "interface"),
+        ("org.varlink.service.InvalidParameter", "parameter"),
+        ("org.varlink.service.MethodNotFound", "method"),
+        ("org.varlink.service.MethodNotImplemented", "method"),
+        ("org.example.SomethingElse", "x"),
+    ];
+    let (name, field) = names[(g(1) as usize).min(4)];
+    let parameters = if g(3) == 0 {
+        None
+    } else if g(4) == 0 {
+        Some(json!({ field: 5 })) // does not deserialize into the error's parameter struct
+    } else if g(5) == 0 {
+        Some(json!({}))
+    } else {
+        Some(json!({ field: "payload" }))
+    };
+    let want_payload = if g(3) == 1 && g(4) == 1 && g(5) == 1 { "payload" } else { "" };
+    let reply = varlink::Reply {
+        continues: None,
+        error: if g(2) == 1 { Some(name.into()) } else { None },
+        parameters: parameters.clone(),
+    };
+    let scenario = format!("ErrorKind::from(Reply {{ error: {:?}, parameters: {:?} }})", reply.error, parameters);
+    let kind = ErrorKind::from(reply);
+    let is_std = g(2) == 1 && g(1) < 4;
+    let bad = match (&kind, g(1), is_std) {
+        (ErrorKind::InterfaceNotFound(p), 0, true) | (ErrorKind::InvalidParameter(p), 1, true) | (ErrorKind::MethodNotFound(p), 2, true)
+        | (ErrorKind::MethodNotImplemented(p), 3, true) => {
+            if p == want_payload {
+                None
+            } else {
+                Some(format!("carries {:?}, expected {:?}", p, want_payload))
+            }
+        }
+        (ErrorKind::VarlinkErrorReply(r), _, false) => {
+            if r.parameters == parameters {
+                None
+            } else {
+                Some("the reply carried is not the reply received".to_string())
+            }
+        }
+        (k, _, _) => Some(format!("mapped to {:?}", k).chars().take(120).collect()),
+    };
+    Ok(Outcome { reproduced: bad.is_some(), role: if is_std { "standard-error".into() } else { "other-error".into() }, scenario, detail: bad.unwrap_or_default() })
 }
